@@ -88,3 +88,12 @@ P("C15", "mirfacts+srcfacts+rules",
   "matched pattern's byte length, so a bound inside a multi-byte character or beyond the match is reported with its derivation.  "
   "Exhaustive over reachable sites (≈150); panics inside third-party crates and resource exhaustion are not claimed.",
   "std's documented guarantees for find/rfind/char_indices offsets; string lengths < isize::MAX; type strings < 2^31 bytes", b=True)
+
+P("C03", "mirfacts+srcfacts+rules",
+  "static analysis: predicate DNF extraction (TABLE), exact dominating-condition sets and divert-branch enumeration (CTRL), walker option who-may-call (CALLS), exclusion-operand provenance (PATHSHAPE), template control-path facts (TPATH)",
+  "Decides the structural necessary conditions: the attribute predicate's DNF equals the documented one over `any` attribute; "
+  "extract_command_info runs under exactly {Item::Fn, is_tauri_command} with no other diverting branch and no None exit; a file enters the "
+  "AST cache under exactly the documented tests (every branch between a directory entry and the insert is classified), with no walker "
+  "limit, the exclusion evaluated on the path below the project root, and parse errors skipped; per-file results are appended with no "
+  "skipping branch; every control path of both wrapper templates has exactly one exported function and one invoke('{{ command.name }}').",
+  "name collisions between user commands are not decided; syn/walkdir behave as documented", b=True)
